@@ -4,7 +4,7 @@
    (go-oidc's Verify: bearer token, time of the call -> subject or error; consulted on every message) and the server configuration c
    (method, token, additional scopes, pool bound, heartbeat timeout), and either over ALL states
    (stronger than reachable ones) or over all event histories [au_run evs au_init]. *)
-From FRP Require Import Model.Auth Model.AuthShape Proofs.AuthProofs Proofs.AuthShapeProofs gen.GenAuth.
+From FRP Require Import Model.Auth Model.AuthShape Model.SshGate Proofs.AuthProofs Proofs.AuthShapeProofs Proofs.SshGateProofs gen.GenAuth.
 Open Scope Z_scope.
 
 (* every session of every reachable state was admitted by RegisterControl on a verified login: under the
@@ -177,6 +177,35 @@ Theorem C04_session_table_keyed : forall H oidc c evs x y,
 Proof. exact au_table_keyed. Qed.
 Print Assumptions C04_session_table_keyed.
 
+(* ---- the ssh tunnel gateway as a way to obtain a session (Model/SshGate.v) -------------------------------- *)
+
+(* a virtual-client session is created only if the peer's ssh key is authorised by the configured authorized_keys file
+   (publickey attempt with proof of possession, key listed) or the login built from the ssh command line carries a
+   valid credential (--token) — for every sequence of ssh authentication attempts, incl. one that skips "none" *)
+Theorem C04_ssh_session_implies_key_or_token :
+  forall H oidc c k s conn now gen attempts cmd_token cmd_user ts pool s' rid sid,
+  sg_step H oidc c k s conn now gen attempts cmd_token cmd_user ts pool = (s', SgForwarded (AuOLoginOk rid sid)) ->
+  sg_key_authorised k attempts \/
+  exists perm, au_login_cred_ok H oidc c now (sg_login H k perm cmd_token cmd_user ts pool) = true.
+Proof. exact sg_session_implies_key_or_token. Qed.
+Print Assumptions C04_ssh_session_implies_key_or_token.
+
+(* gateway without an authorized_keys file: only the token admits, whatever key the peer offers *)
+Theorem C04_ssh_no_keys_file_needs_token :
+  forall H oidc c s conn now gen attempts cmd_token cmd_user ts pool s' rid sid,
+  sg_step H oidc c SgNoFile s conn now gen attempts cmd_token cmd_user ts pool = (s', SgForwarded (AuOLoginOk rid sid)) ->
+  au_login_cred_ok H oidc c now (sg_login H SgNoFile None cmd_token cmd_user ts pool) = true.
+Proof. exact sg_no_file_needs_token. Qed.
+Print Assumptions C04_ssh_no_keys_file_needs_token.
+
+(* an ssh connection that does not end in a session leaves the server state untouched *)
+Theorem C04_ssh_refused_leaves_state :
+  forall H oidc c k s conn now gen attempts cmd_token cmd_user ts pool,
+  (forall rid sid, snd (sg_step H oidc c k s conn now gen attempts cmd_token cmd_user ts pool) <> SgForwarded (AuOLoginOk rid sid)) ->
+  fst (sg_step H oidc c k s conn now gen attempts cmd_token cmd_user ts pool) = s.
+Proof. exact sg_refused_leaves_state. Qed.
+Print Assumptions C04_ssh_refused_leaves_state.
+
 (* ---- reflective, over today's translator output (unit t4auth -> gen/GenAuth.v) --------------------------- *)
 
 (* the three Verify* methods of pkg/auth/token.go, as translated today, mean exactly the model's functions: the
@@ -204,6 +233,19 @@ Theorem C04_register_control_has_modelled_shape :
                       au_verifier_eqb (au_choose_verifier internal sp) AuAlwaysPass.
 Proof. exact (conj ga_register_control_shape ga_bypass_is_choose_verifier). Qed.
 Print Assumptions C04_register_control_has_modelled_shape.
+
+(* pkg/ssh: NoClientAuth iff no authorized_keys file; PublicKeyCallback = load file, fail on error, look the key up,
+   fail when absent, succeed last (one success return); no other authenticating callback; the virtual client's
+   AlwaysAuthPass is !NoClientAuth (a property of the configuration, not of the connection) *)
+Theorem C04_ssh_gateway_has_modelled_shape : ga_sshgw_ok gen_ssh_gateway = true.
+Proof. exact ga_ssh_gateway_shape. Qed.
+Print Assumptions C04_ssh_gateway_has_modelled_shape.
+
+(* pkg/auth/auth.go NewAuthVerifier builds the token verifier from (scopes, token) for EVERY token, the empty one
+   included, or the OIDC consumer; the file never mentions the always-pass verifier *)
+Theorem C04_configured_verifier_is_never_always_pass : ga_newverifier_ok gen_new_auth_verifier = true.
+Proof. exact ga_new_auth_verifier_shape. Qed.
+Print Assumptions C04_configured_verifier_is_never_always_pass.
 
 (* ---- the hypotheses are satisfiable: a concrete history (toy hash H(tok,ts) = tok ++ [ts], token "t") ------ *)
 Definition c04ex_H (tok : bytes) (ts : Z) : bytes := tok ++ [byte_of_Z ts].
@@ -263,3 +305,14 @@ Example C04_ex_trace_expiry_and_plugin :
   [AuOLoginOk [x61] 0; AuOWorkPooled; AuORefused (AuRWorkAuth AuErrOidcInvalid); AuOPongErr AuErrOidcInvalid;
    AuORefused (AuRWorkAuth AuErrOidcInvalid); AuOWorkPooled; AuORefused AuRWorkPlugin].
 Proof. vm_compute. reflexivity. Qed.
+
+(* ssh gateway without authorized_keys, peer goes straight to publickey with a self-made key and a wrong token:
+   refused at ssh level; with "none" first and the right token: session *)
+Example C04_ex_ssh :
+  snd (sg_step c04ex_H c04ex_oidc c04ex_cfg SgNoFile au_init 0 0 [x61] [SgPublicKey [x6b] true] [x77] [] 7 1) = SgRefusedAtSsh /\
+  snd (sg_step c04ex_H c04ex_oidc c04ex_cfg SgNoFile au_init 0 0 [x61] [SgNone; SgPublicKey [x6b] true] [x77] [] 7 1)
+    = SgForwarded (AuORefused (AuRLogin AuErrTokenLogin)) /\
+  snd (sg_step c04ex_H c04ex_oidc c04ex_cfg SgNoFile au_init 0 0 [x61] [SgNone] [x74] [] 7 1) = SgForwarded (AuOLoginOk [x61] 0) /\
+  snd (sg_step c04ex_H c04ex_oidc c04ex_cfg (SgFile [([x6b], [x75])]) au_init 0 0 [x61] [SgNone; SgPublicKey [x6b] true] [] [] 7 1)
+    = SgForwarded (AuOLoginOk [x61] 0).
+Proof. vm_compute. repeat split; reflexivity. Qed.
